@@ -207,7 +207,11 @@ def run(ctx):
         if q:
             sess = [m for m in mts if m in ("A", "0", "1", "2", "3", "4", "5")]
             reqg = [m for m in mts if any(x["k"] == "g" and x["req"] for x in d["messages"][m]["members"])]
-            mts = sorted(set(sess + rng.sample(mts, min(6 if dname == "FIX44" else 4, len(mts))) + rng.sample(reqg, min(3, len(reqg)))))
+            def has_req_nested(ms, inside=False):
+                return any(x["k"] == "g" and ((inside and x["req"]) or has_req_nested(x["members"], True)) for x in ms)
+            reqn = [m for m in mts if has_req_nested(d["messages"][m]["members"])]      # a required group inside a group item
+            mts = sorted(set(sess + rng.sample(mts, min(6 if dname == "FIX44" else 4, len(mts))) + rng.sample(reqg, min(3, len(reqg)))
+                             + rng.sample(reqn, min(2, len(reqn)))))
         recs = []
         n = 0
         nperm = (2 if q else 6)
@@ -220,7 +224,9 @@ def run(ctx):
             mid = insts[1][1]
             ml = mutants(b, d, mt, mid, members)
             if q and len(ml) > 120:
-                ml = rng.sample(ml, 120)
+                keep = [x for x in ml if x[0].startswith("drop_required")]
+                rest = [x for x in ml if not x[0].startswith("drop_required")]
+                ml = keep[:80] + rng.sample(rest, min(len(rest), max(40, 120 - len(keep[:80]))))
             for name, tree in ml:
                 recs.append(dict(base, id="%s.%s.%s" % (dname, mt, name), tree=tree)); n += 1
             for k in range(3 if q else 20):
